@@ -8,6 +8,37 @@ HEADER = ("From Coq Require Import String List ZArith Bool.\nFrom LNML Require I
           "From Run Require Import Gen_Bindings.\nImport ListNotations.\nOpen Scope string_scope.\n")
 
 
+def first_diff(a, b):
+    """innermost position where two dumped trees differ -> (class, member, kind)"""
+    if a is None or b is None or a.get("cls") != b.get("cls"):
+        return (a or {}).get("cls"), "", "class"
+    for (n1, v1), (n2, v2) in zip(a["fields"], b["fields"]):
+        if n1 != n2:
+            return a["cls"], n1, "field-set"
+        if v1 == v2:
+            continue
+        if isinstance(v1, dict) and isinstance(v2, dict):
+            if "o" in v1 and "o" in v2:
+                if v1["o"]["cls"] != v2["o"]["cls"]:
+                    return a["cls"], n1, "child-class"
+                return first_diff(v1["o"], v2["o"])
+            if "l" in v1 and "l" in v2 and len(v1["l"]) == len(v2["l"]):
+                for x, y in zip(v1["l"], v2["l"]):
+                    if x != y:
+                        if x["cls"] != y["cls"]:
+                            return a["cls"], n1, "child-class"
+                        return first_diff(x, y)
+        return a["cls"], n1, "value"
+    return a["cls"], "", "length"
+
+
+def diff_key(prop, a, b):
+    c, m, kind = first_diff(a, b)
+    if kind == "child-class":
+        return "%s:%s:child-class-vs-memberspec:%s" % (prop, c, m)
+    return "%s:%s:%s" % (prop, c, m)
+
+
 def case_to_coq(tree, tag, r):
     obj = r["obj"]
     fields = dict((n, v) for n, v in obj["fields"])
@@ -47,7 +78,7 @@ def run_correspondence(ck, tab, T, per_class, depth, label="Cases_C01"):
                        input=case, observed=r.get("xml_err") or r.get("back_err"))
         elif r["back"] != r["obj"]:
             diff = [(a[0], a[1], b[1]) for a, b in zip(r["obj"]["fields"], r["back"]["fields"]) if a != b][:3]
-            ck.witness("C01:%s:%s" % (c, ",".join(d[0] for d in diff) or "fields"),
+            ck.witness(diff_key("C01", r["obj"], r["back"]),
                        "XML write->read changes the tree of a %s: %s" % (c, json.dumps(diff)[:300]),
                        input=case, expected=r["obj"], observed=r["back"])
         if not r.get("obj_after", True) or not r.get("text_again", True):
@@ -104,7 +135,7 @@ def run_documents(ck, T, n, depth, prop="C01"):
         if prop == "C01":
             if r["back0"] != r["obj"]:
                 diff = [(a[0]) for a, b in zip(r["obj"]["fields"], r["back0"]["fields"]) if a != b][:5]
-                ck.witness("C01:document:%s" % ",".join(diff), "NeuroMLWriter.write -> NeuroMLLoader.load changes the document in " + ",".join(diff),
+                ck.witness(diff_key("C01", r["obj"], r["back0"]), "NeuroMLWriter.write -> NeuroMLLoader.load changes the document in " + ",".join(diff),
                            input=case, expected=r["obj"], observed=r["back0"])
         else:
             if r["back1"] != r["back0"] or r["back2"] != r["back1"]:
@@ -230,6 +261,19 @@ def run(ck):
         ck.compile_props()
     else:
         ck.oblige("Props_C01.v:C01_roundtrip", False, "instance obligation wf_ok failed", kind="theorem")
+    # the class the builder instantiates for a child must be the class the MemberSpec declares for that member
+    mism = T.class_mismatches()
+    ck.oblige("tables:builder-class = MemberSpec type for every child member", not [m for m in mism if (m[0], m[1]) != ("ComponentType", "Property")],
+              str(mism), kind="instance")
+    if mism:
+        gen = gdsgen.Gen(T, ck.rng)
+        order = {c: T.field_order(c) for c in T.order}
+        cases = [{"tag": "probe", "tree": gen.focus_tree(c, m, "none"), "why": [c, "child-class-vs-memberspec", m]} for c, m, _, _ in mism]
+        for case, r in zip(cases, ck.impl("gds_impl.py", {"order": order, "cases": cases})["results"]):
+            if r.get("back") != r.get("obj"):
+                ck.witness("C01:%s:child-class-vs-memberspec:%s" % (case["why"][0], case["why"][2]),
+                           "a %s under member %s is read back as another class" % (T.mspec_type(case["why"][0], case["why"][2]), case["why"][2]),
+                           input=case, expected=r.get("obj"), observed=r.get("back") or r.get("back_err"))
     from lib.escape_check import run_escape
     run_escape(ck)
     run_correspondence(ck, tab, T, per_class=ck.n(3, 12), depth=ck.n(2, 4))
